@@ -229,6 +229,17 @@ def rule_overlay(ctx: Ctx) -> RuleResult:
     else:
         res.violation([f.qualname, "dumped value"], f"_write_data dumps {sorted(kinds) or 'something else'} instead of merged-or-new", f.relpath, d.lineno)
     _update_writes(ctx, res)
+    # inside _write_data: no answer other than failure before the merged mapping has been dumped
+    wcfg = cfg_of(f.node)
+    dnode = wcfg.node_of(d)
+    early = [r for r in _rets(f) if not (r.value is None or (isinstance(r.value, ast.Constant) and r.value.value in (False, None)))
+             and dnode is not None and wcfg.node_of(r) is not None and not wcfg.on_all_paths(wcfg.entry.id, wcfg.node_of(r).id, [dnode.id])]
+    for r in early:
+        res.violation([f.qualname, "return without dump", norm(r)[:40]],
+                      f"_write_data: `{norm(r)[:60]}` is reachable without dumping the data: the write answers (success) although nothing was "
+                      f"stored, so a later read is not the overlay of everything written", f.relpath, r.lineno)
+    if not early:
+        res.ok("_write_data returns", "every return that does not report failure comes after the dump")
     facts = facts_at(ctx, f, u)
     if any(t.endswith(".exists()") and truth for t, truth in facts):
         res.ok("_write_data exists branch", "merge only when the sidecar exists")
